@@ -7,7 +7,8 @@
 From Coq Require Import String List ZArith NArith Bool.
 Import ListNotations.
 From OV Require Import Base.Bytes Base.Tree Gen.Conv Model.Value Model.XPathFrag Model.Decl Model.Eval.
-From OV Require Import Proofs.Value Proofs.Validate Proofs.EvalPure Proofs.EvalCache Proofs.EvalSpec Proofs.EvalExamples.
+From OV Require Import Proofs.Value Proofs.ValuePrint Proofs.ValueOrder Proofs.Validate Proofs.ValidateWf Proofs.EvalPure Proofs.EvalCache
+     Proofs.EvalSpec Proofs.ValidateSpec Proofs.EvalFull Proofs.EvalOrder Proofs.EvalCorners Proofs.EvalExamples.
 
 Section C02.
   Variable root : tree.
@@ -83,22 +84,11 @@ Proof. exact normalize_laws. Qed.
 Theorem validate_terminates : forall ds fexists pexists, validate ds fexists pexists <> VFuel.
 Proof. exact validate_terminates. Qed.
 
-(* eval_matches_spec (full statement):
-     forall ds fexists pexists top root query ext fsigs fcall pcall p,
-       validate ds fexists pexists = VOk top -> valid root p ->
-       Some (eval_nocache root query ext fsigs fcall pcall top p)
-       = eval_spec root query ext fsigs fcall pcall ds p.
-   Proved below for the validated tree: the uncached evaluation of a validated tree equals the
-   documented evaluation (spec_tf: D2 anchoring, D3 composition / argument passing, D4 a single
-   normalisation) of the declarations the tree stands for (erase top: kinds, fqdns, hashes and
-   parent links forgotten).  MISSING for the full statement: the link
-       validate ds = VOk top -> expand_final ds = Some (erase top)   (up to the order of object members)
-   i.e. that validate's template expansion / kind resolution / child linking produce exactly the
-   substituted declarations (D1) in the shape wf_b; it is checked on every generated schema by
-   check_case (validate ds = dumped tree, wf_b (dumped tree), eval_spec ds = observed) but not
-   proved.  Two hypotheses about printing remain (true by inspection of Z_to_dec / fmt_float,
-   sampled in print_trim_samples): the printed form of a number has no surrounding white space,
-   so that normalising a child's value a second time in the parent is the identity. *)
+(* The tree-level half of eval_matches_spec (kept; the full theorem is eval_matches_spec below):
+   the uncached evaluation of a validated tree equals the documented evaluation (spec_tf: D2
+   anchoring, D3 composition / argument passing, D4 a single normalisation) of the declarations
+   the tree stands for (erase top).  Its two printing hypotheses are theorems now
+   (print_int_trim, print_flt_trim). *)
 Theorem eval_matches_spec_partial :
   forall root query ext fsigs fcall pcall,
   (forall x p ps, valid root p -> query x p = Some ps -> Forall (valid root) ps) ->
@@ -109,17 +99,6 @@ Theorem eval_matches_spec_partial :
   eval_nocache root query ext fsigs fcall pcall top p
   = to_res (spec_tf root query ext fsigs fcall pcall (erase top) false p).
 Proof. exact eval_matches_spec_tree. Qed.
-
-(* eval_order_independent (full statement; NOT proved, no theorem is claimed):
-     the value of an object is invariant under permutation of its member declarations
-       forall i x ks ks', p_kind (v_pub i) = KObject -> Permutation ks ks' -> NoDup (map key ks) ->
-         (no member evaluates to Panic) ->
-         eval_nocache (VD i x ks) p = eval_nocache (VD i x ks') p.
-   MISSING: bytes_ltb is a strict total order and obj_set commutes on distinct keys over a
-   key-sorted list; with those, p_object_loop is permutation invariant.  In the implementation
-   the member order is fixed by validateObject's sort, so the map's iteration order only
-   influences which hash CLASS NUMBER a declaration gets; eval_matches_spec_partial (the spec
-   folds members in the same order) and the sibling-independence oracle cover the rest. *)
 
 (* With array children sorted by fqdn string (validateArray before the F3 repair) the documented
    order is lost for >= 10 children. *)
@@ -157,3 +136,98 @@ Proof. intros. split; [apply fqdn_key_roundtrip|apply esc_state_build]; assumpti
 
 Theorem obj_key_roundtrip : forall parent name, obj_key (parent ++ [esc_name name]) = name.
 Proof. exact obj_key_roundtrip. Qed.
+
+(* ---- the main statement, in full -------------------------------------------------------------------- *)
+(* What validate accepts has the shape wf_b and calls only functions the validation found
+   registered (decl_nodup: transform_declarations came out of Go maps, so an object lists each
+   field name once). *)
+Theorem validate_wf : forall ds fexists pexists,
+  (forall name body, lookup name ds = Some body -> decl_nodup body = true) ->
+  forall top, validate ds fexists pexists = VOk top ->
+  wf_b true top = true /\ funcs_b fexists top = true.
+Proof. exact validate_wf. Qed.
+
+(* Template expansion by validate = substitution (D1): the validated tree stands for exactly the
+   expanded declarations, up to the order of object members (validateObject sorts them). *)
+Theorem validate_expand : forall ds fexists pexists,
+  (forall name body, lookup name ds = Some body -> decl_nodup body = true) ->
+  forall top, validate ds fexists pexists = VOk top ->
+  exists d', expand_final ds = Some d' /\ osort d' = erase top /\ decl_nodup d' = true.
+Proof. exact validate_expand. Qed.
+
+(* The printed forms of numbers carry no surrounding white space. *)
+Theorem print_trimmed : (forall z, trim_space (Z_to_dec z) = Z_to_dec z) /\ (forall f, trim_space (fmt_float f) = fmt_float f).
+Proof. split; [exact print_int_trim|exact print_flt_trim]. Qed.
+
+(* eval_matches_spec: for every accepted schema, every record tree, every node and every
+   engine / functions, the evaluation of the validated FINAL_OUTPUT is the documented evaluation
+   (eval_spec, written from doc/transforms.md and doc/xpath.md on the declarations as authored:
+   templates by substitution, anchoring, composition, argument passing, one normalisation). *)
+Theorem eval_matches_spec : forall root query ext fsigs fcall pcall ds fexists pexists top,
+  (forall x p ps, valid root p -> query x p = Some ps -> Forall (valid root) ps) ->
+  (forall name, fexists name = true -> fsigs name <> None) ->
+  (forall name body, lookup name ds = Some body -> decl_nodup body = true) ->
+  validate ds fexists pexists = VOk top ->
+  forall p, valid root p ->
+  eval_spec root query ext fsigs fcall pcall ds p
+  = Some (eval_nocache root query ext fsigs fcall pcall top p).
+Proof. exact eval_matches_spec. Qed.
+
+(* ... and so is what a fresh ParseCtx with the transform cache ON computes (any ID type, any
+   pairwise distinct node IDs): the emitted value is the documented one. *)
+Theorem emitted_value_is_documented :
+  forall root query ext fsigs fcall pcall ds fexists pexists top
+         (K : Type) (K_eqb : K -> K -> bool) (nid : path -> K),
+  (forall x p ps, valid root p -> query x p = Some ps -> Forall (valid root) ps) ->
+  (forall name, fexists name = true -> fsigs name <> None) ->
+  (forall name body, lookup name ds = Some body -> decl_nodup body = true) ->
+  (forall a b, K_eqb a b = true -> a = b) ->
+  (forall p q, valid root p -> valid root q -> nid p = nid q -> p = q) ->
+  validate ds fexists pexists = VOk top ->
+  forall p, valid root p ->
+  eval_spec root query ext fsigs fcall pcall ds p
+  = Some (fst (eval_cached root query ext fsigs fcall pcall K_eqb nid top p [])).
+Proof.
+  intros root query ext fsigs fcall pcall ds fe pe top K K_eqb nid Hq Hfe Hnd Keq Ninj Hv p Hp.
+  rewrite (Proofs.EvalCache.eval_cache_transparent root query ext fsigs fcall pcall (valid root) top Hq
+             (proj1 (Proofs.ValidateWf.validate_wf ds fe pe Hnd top Hv)) K K_eqb nid Keq Ninj top p (self_sub top) Hp).
+  apply Proofs.EvalFull.eval_matches_spec with (fexists := fe) (pexists := pe); assumption.
+Qed.
+
+(* eval_order_independent: the value of an object is invariant under any permutation of its
+   member declarations, i.e. of the iteration order of the Go map they were unmarshalled into
+   (distinct field names).  same_outcome: equal values; a failing evaluation stays failing. *)
+Theorem eval_order_independent : forall root query ext fsigs fcall pcall i x ks ks' p,
+  p_kind (v_pub i) = KObject ->
+  NoDup (map (fun c => obj_key (v_fqdn (vd_info c))) ks) ->
+  Permutation.Permutation ks ks' ->
+  same_outcome (eval_nocache root query ext fsigs fcall pcall (VD i x ks) p)
+               (eval_nocache root query ext fsigs fcall pcall (VD i x ks') p).
+Proof. exact object_order_independent. Qed.
+
+(* ... and so is the documented evaluation: sorting the members of every object of a declaration
+   (what validateObject does) does not change eval_spec's value. *)
+Theorem spec_order_independent : forall root query ext fsigs fcall pcall d,
+  decl_nodup d = true -> forall a p,
+  spec_tf root query ext fsigs fcall pcall (osort d) a p = spec_tf root query ext fsigs fcall pcall d a p.
+Proof. exact spec_tf_osort. Qed.
+
+(* Corners.  An xpath_dynamic that cannot be computed (its declaration fails, or yields nil, a
+   non-string or a blank string) gives the anchored declaration the null result: it never fails
+   the record (undocumented; the spec follows the implementation here). *)
+Theorem xpath_dynamic_failure_is_null : forall root query ext fsigs fcall pcall i q ks p,
+  anchoring_kind (p_kind (v_pub i)) = true ->
+  needed i true = true ->
+  static_xpath (einfo_of i true) = None ->
+  (forall s, eval_nocache root query ext fsigs fcall pcall q p = Ok (VStr s) -> is_nonblank s = false) ->
+  eval_nocache root query ext fsigs fcall pcall q p <> Panic ->
+  eval_nocache root query ext fsigs fcall pcall (VD i (Some q) ks) p = Ok VNil.
+Proof. exact xpath_dynamic_failure_is_null. Qed.
+
+(* ignore_error turns a failing custom function into the null result; without it the record fails. *)
+Theorem ignore_error_corner : forall root query ext fsigs fcall pcall i name p,
+  p_kind (v_pub i) = KCustomFunc -> p_fname (v_pub i) = Some name ->
+  needed i false = false ->
+  fsigs name = Some (mkSig [] None) -> fcall name p [] = CfErr ->
+  eval_nocache root query ext fsigs fcall pcall (VD i None []) p = if p_ignore (v_pub i) then Ok VNil else Err.
+Proof. exact ignore_error_corner. Qed.
